@@ -99,6 +99,24 @@ def declConsumeSpaces (s : Stream) : Res Stream :=
     | [] => .panic "curr_byte_unchecked"
   else .ok s
 
+/-- the end of `parse_declaration`: `s.skip_spaces(); s.skip_string(b"?>")` -/
+def declEnd (s : Stream) : Res Stream := (s.skipSpaces T).skipString txt Lit.piEnd
+
+/-- `if s.starts_with(b"standalone") { parse_attribute(s)? }`, then the end -/
+def declStandalone (s : Stream) : Res Stream :=
+  if s.startsWith Lit.standalone then do
+    let s ← parseAttribute T txt s
+    declEnd T txt s
+  else declEnd T txt s
+
+/-- `if s.starts_with(b"encoding") { parse_attribute(s)?; consume_spaces(s)? }`, then the rest -/
+def declEncoding (s : Stream) : Res Stream :=
+  if s.startsWith Lit.encoding then do
+    let s ← parseAttribute T txt s
+    let s ← declConsumeSpaces T txt s
+    declStandalone T txt s
+  else declStandalone T txt s
+
 /-- `parse_declaration` -/
 def parseDeclaration (s : Stream) : Res Stream := do
   let s ← s.advance 5
@@ -108,13 +126,7 @@ def parseDeclaration (s : Stream) : Res Stream := do
   else
     let s ← parseAttribute T txt s
     let s ← declConsumeSpaces T txt s
-    let s ← if s.startsWith Lit.encoding then do
-        let s ← parseAttribute T txt s
-        declConsumeSpaces T txt s
-      else pure s
-    let s ← if s.startsWith Lit.standalone then parseAttribute T txt s else pure s
-    let s := s.skipSpaces T
-    s.skipString txt Lit.piEnd
+    declEncoding T txt s
 
 /-- `parse_comment` -/
 def parseComment (s : Stream) : TM Stream := do
@@ -198,13 +210,8 @@ def parseEntityDef (s : Stream) (isGe : Bool) : Res (Stream × Option Span) := d
     else errAt txt .invalidExternalID s.pos
   else errAt txt (.invalidChar2 Lit.quoteSystemPublic c) s.pos
 
-/-- `parse_entity_decl` (with the D14 repair: only general entities are delivered). -/
-def parseEntityDecl (s : Stream) : TM Stream := do
-  let s ← lift (s.advance 8)
-  let s ← lift (s.consumeSpaces T txt)
-  let (s, isPct) := s.tryConsumeByte bPct
-  let s ← if isPct then lift (s.consumeSpaces T txt) else pure s
-  let isGe := !isPct
+/-- `parse_entity_decl` after `<!ENTITY S` and the optional `% S`. -/
+def parseEntityDeclBody (s : Stream) (isGe : Bool) : TM Stream := do
   let (s, name) ← lift (s.consumeName T txt)
   let s ← lift (s.consumeSpaces T txt)
   let (s, defn) ← lift (parseEntityDef T txt s isGe)
@@ -214,12 +221,22 @@ def parseEntityDecl (s : Stream) : TM Stream := do
   let s := s.skipSpaces T
   lift (s.consumeByte txt bGt)
 
+/-- `parse_entity_decl` (with the D14 repair: only general entities are delivered). -/
+def parseEntityDecl (s : Stream) : TM Stream := do
+  let s ← lift (s.advance 8)
+  let s ← lift (s.consumeSpaces T txt)
+  let p := s.tryConsumeByte bPct
+  if p.2 then do
+    let s ← lift (p.1.consumeSpaces T txt)
+    parseEntityDeclBody T txt s false
+  else parseEntityDeclBody T txt p.1 true
+
 /-- `consume_decl(s).is_err()`: `true` when the declaration is not terminated. -/
 def consumeDecl (s : Stream) : Stream × Bool :=
-  let (s, _) := s.consumeBytes (fun c => c != bGt)
-  match s.rest with
-  | _ :: r => (⟨s.pos + 1, r⟩, false)
-  | [] => (s, true)
+  let s1 := (s.consumeBytes (fun c => c != bGt)).1
+  match s1.consumeByte txt bGt with
+  | .ok s2 => (s2, false)
+  | _ => (s1, true)
 
 /-- `parse_doctype_start` -/
 def parseDoctypeStart (s : Stream) : Res Stream := do
@@ -258,7 +275,7 @@ def doctypeLoop (start : Nat) : Nat → Stream → TM Stream
           if c == bGt then pure ⟨s.pos + 1, r⟩
           else lift (errAt txt (.invalidChar2 Lit.gtQuoted c) s.pos)
       else if s.startsWith Lit.element_ || s.startsWith Lit.attlist_ || s.startsWith Lit.notation_ then
-        let (s, failed) := consumeDecl s
+        let (s, failed) := consumeDecl txt s
         if failed then lift (errFrom txt .unknownToken start)
         else doctypeLoop start fuel s
       else lift (errAt txt .unknownToken s.pos)
@@ -298,7 +315,7 @@ def startTagLoop : Nat → Stream → TM (Stream × Option Bool)
         pure (s, some true)
       else
         -- An attribute must be preceded with a whitespace.
-        let s ← if !hasSpace then lift (s.consumeSpaces T txt) else pure s
+        let s ← lift (if !hasSpace then s.consumeSpaces T txt else .ok s)
         let (s, pfx, loc) ← lift (s.consumeQName T txt)
         let qnameEnd := s.pos
         let qnameLen := min (qnameEnd - start) 65535
@@ -392,15 +409,18 @@ def parseElement (s : Stream) : TM Stream := do
 /-- The part of `tokenizer::parse` before the DOCTYPE test: BOM, XML declaration, Misc, spaces. -/
 def parseProlog : TM Stream := do
   let s := Stream.new txt
-  let s ← if s.startsWith Lit.bom then lift (s.advance 3) else pure s
-  let s ← if s.startsWith Lit.xmlDecl then lift (parseDeclaration T txt s) else pure s
+  let s ← lift (if s.startsWith Lit.bom then s.advance 3 else .ok s)
+  let s ← lift (if s.startsWith Lit.xmlDecl then parseDeclaration T txt s else .ok s)
   let s ← parseMisc T txt (s.rest.length + 1) s
   pure (s.skipSpaces T)
 
 /-- The part of `tokenizer::parse` after the DOCTYPE: root element, Misc, end of input. -/
+def parseRootElement (s : Stream) : TM Stream :=
+  if s.currByte? == some bLt then parseElement T txt s else pure s
+
 def parseBody (s : Stream) : TM Unit := do
   let s := s.skipSpaces T
-  let s ← if s.currByte? == some bLt then parseElement T txt s else pure s
+  let s ← parseRootElement T txt s
   let s ← parseMisc T txt (s.rest.length + 1) s
   if !s.atEnd then lift (errAt txt .unknownToken s.pos) else pure ()
 
